@@ -80,6 +80,8 @@ type Exec struct {
 	mapOrderNondet bool
 	misuseDepth int
 	syncMaps   map[*Cont]*MapV
+	mapIters   map[*Cont]*mapIterSt
+	mapIdent   map[*MapV]*Cont
 	nameSeq    int
 	curInstr   ssa.Instruction
 	model      Assignment // satisfies the path condition once the prefix has been replayed
@@ -640,7 +642,7 @@ func (r *Run) newExec(f *Factory, sol *SolverClient, prefix []Decision) *Exec {
 		stepLimit: r.StepLimit, depthLimit: r.DepthLimit,
 		drawCount: map[string]int{}, covers: map[string]bool{},
 		inStub: map[string]bool{}, pools: map[*Cont][]Value{}, onceDone: map[*Cont]bool{},
-		syncMaps: map[*Cont]*MapV{},
+		syncMaps: map[*Cont]*MapV{}, mapIters: map[*Cont]*mapIterSt{},
 		trackFuncs: true, funcsSeen: map[*ssa.Function]int{},
 	}
 }
